@@ -1,6 +1,6 @@
 """C08 - numeric equality/ordering: exactness by forbidden callees, comparison tables, mirrored arms."""
 import re
-from .core import (CheckError, find_match, arm_region, pat_str, strip_ref, origins, only_when, pat_paths,
+from .core import (builds_error, CheckError, find_match, arm_region, pat_str, strip_ref, origins, only_when, pat_paths,
                    Registry, CallGraph, const_str, op_local)
 
 META = {
@@ -233,6 +233,27 @@ def run(F, rep, tier):
         rep.ok('R8.2', 'Extremum::run', '%d sites: candidate replaces best iff ncmp(candidate, best) == bias' % len(ncs))
     else:
         rep.viol('R8.2', 'Extremum::run|shape', 'Extremum::run no longer compares ncmp(..) == self.bias at every site (%d ncmp, %d eq)' % (len(ncs), len(eqs)), ex.loc(0))
+    # the comparator handed to sort_by must turn "incomparable" into an error itself: a pre-check over adjacent input pairs is not
+    # enough (comparability is not transitive over sequences), and unwrap_or(Equal) silently orders incomparable elements
+    for sfn in ('sorted', 'sorted_by', 'sorted_on'):
+        if not F.has_fn(sfn):
+            rep.error('R8.5', sfn + ' missing')
+            continue
+        sb_ = F.body(sfn)
+        sorts = [c for c in sb_.calls if c.target.rsplit('::', 1)[-1] in ('sort_by', 'sort_unstable_by', 'sort_by_key', 'sort_by_cached_key')]
+        cmps = []
+        for c in sorts:
+            for a_ in c.args[1:]:
+                for r_ in sb_.roots(a_):
+                    if r_[0] == 'agg' and r_[1] == 'closure':
+                        cmps.append(r_[2])
+        cmps = cmps or list(F.closures_of(sfn))
+        raising = [cl for cl in cmps if any(builds_error(F, c2) or c2.target.rsplit('::', 1)[-1] == 'ncmp' for c2 in F.body(cl).calls)]
+        swallow = [cl for cl in cmps if any(c2.target.rsplit('::', 1)[-1] in ('unwrap_or', 'unwrap_or_default', 'unwrap_or_else') and 'Ordering' in str(c2.callee.get('g')) for c2 in F.body(cl).calls)]
+        if sorts and raising and not swallow:
+            rep.ok('R8.5', '%s comparator' % sfn, 'records an error when two elements are incomparable (ncmp / explicit error)')
+        elif sorts:
+            rep.viol('R8.5', '%s|comparator-swallows-incomparable' % sfn, 'the comparator %s hands to sort_by does not raise for incomparable elements (raising closures %d, unwrap_or on an Ordering %d): `sort([[1, \'a\'], [2, 0], [1, 3]])` returns an arbitrary arrangement instead of "not comparable"' % (sfn, len(raising), len(swallow)), sorts[0].loc())
     # the folding spelling (`yield .. into max`): same comparison, same operand roles, same tie-breaking as Extremum::run
     found_, ok_, why_, loc_ = cata_extremum(F)
     if not found_:
